@@ -45,9 +45,13 @@ Fixpoint first_offending (c : static_case) (i : Z) : Z * Z :=
   | d :: c' => if offending d then (i, kind_code (snd (fst d))) else first_offending c' (i + 1)
   end.
 
-(** (-1, index of the first unsanctioned reachable occurrence or -1, kind code) *)
+(** (index of the first unsanctioned reachable occurrence or -1, -1, kind code).
+    An unsanctioned reachable source is a BROKEN OBLIGATION (the regenerated graph no longer
+    satisfies [no_unsanctioned_source]), reported in the first component; it is not by itself a
+    failing input — the replica streams are searched for one (the second component of
+    [check_replicas]), and only a replica difference is reported as a concrete violation. *)
 Definition check_static (c : static_case) : Z * Z * Z :=
-  let '(i, k) := first_offending c 0 in (-1, i, k).
+  let '(i, k) := first_offending c 0 in (i, -1, k).
 
 (** ** dynamic part: replica agreement *)
 Record rcase := mkR {
